@@ -114,6 +114,12 @@ def tauN (x : Nat) : Nat := unlanes 8 ((lanes 8 4 x).map sboxByte)
 def LN (y : Nat) : Nat := y ^^^ ((rotl32 24 y ^^^ rotl32 18 y) ^^^ (rotl32 10 y ^^^ rotl32 2 y))
 def TN (x : Nat) : Nat := LN (tauN x)
 
+theorem imm64_4 : imm64 4 = 4 := by decide +kernel
+theorem addF_fst_4 (a : Nat) : (addF 8 a (imm64 4)).1 = (a + 4) % 2 ^ 64 := by
+  rw [imm64_4]; rfl
+theorem subF_fst_4 (a : Nat) : (subF 8 a (imm64 4)).1 = (a + 2 ^ 64 - 4) % 2 ^ 64 := by
+  rw [imm64_4]; rfl
+
 theorem imm_2 : imm64 2 % 256 = 2 := by decide +kernel
 theorem imm_10 : imm64 10 % 256 = 10 := by decide +kernel
 theorem imm_18 : imm64 18 % 256 = 18 := by decide +kernel
@@ -180,6 +186,8 @@ theorem round_spec (A B C D : Nat)
   obtain ⟨b0, b1, b2, b3, b4, b5, b6, b7, b8, b9, b10, b11, b12, b13, b14, b15, b16, b17, b18, b19, b20, b21, b22, b23, b24, b25, b26, b27, b28, b29, b30, b31, rfl⟩ := list32 vec hV
   simp only [greg, vreg, List.getD_cons_succ, List.getD_cons_zero] at hg0 hw h10 h11
   subst h10 h11
+  have e0 : (a0 + 0 + imm64 0) % 2 ^ 64 = a0 := by simp [imm64, Nat.mod_eq_of_lt hg0]
+  rw [← e0] at hw
   rcases hperm with ⟨rfl, rfl, rfl, rfl⟩ | ⟨rfl, rfl, rfl, rfl⟩ | ⟨rfl, rfl, rfl, rfl⟩ | ⟨rfl, rfl, rfl, rfl⟩
   all_goals
     apply Exists.intro
@@ -187,12 +195,12 @@ theorem round_spec (A B C D : Nat)
     · unfold roundCode
       apply exec_step
       · exact execD_movl_load (bs := bs) (hb := by rfl) (hold := by rfl) (hd := by simp)
-          (hload := by simpa [imm64, Nat.mod_eq_of_lt hg0] using hw) ..
+          (hload := hw) ..
       xstep; xstep; xstep; xstep; xstep; xstep; xstep; xstep; xstep; xstep; xstep; xstep; xstep; xstep; xstep; xstep
       exact execList_nil _
     · simp only [List.set_cons_succ, List.set_cons_zero]
       refine ⟨rfl, rfl, rfl, rfl, rfl, ?_, rfl, rfl, rfl, rfl, rfl, rfl, rfl, ?_⟩
-      · simp [greg, addF, imm64]
+      · simp only [greg, List.getD_cons_succ, List.getD_cons_zero, addF_fst_4]
       · simp only [vreg, List.getD_cons_succ, List.getD_cons_zero]
         simp only [Nat.reduceDiv, imm_2, imm_10, imm_18, imm_24, imm_62, imm_211, lane_vpxord _ 0 _ _ (by decide : 0 < 4),
           lane_vprold _ 0 _ _ (by decide : 0 < 4), lane0_sbox, lane_bcast 32 4 0 _ (by decide) hbs, movl_low _ _ hbs]
